@@ -11,6 +11,7 @@ import (
 	"bufio"
 	"bytes"
 	"context"
+	"crypto/sha1"
 	"encoding/binary"
 	"fmt"
 	"io"
@@ -36,7 +37,52 @@ type readScenario struct {
 	Prefill  bool     `json:"prefill"` // every piece verified in the store at the start
 	Seed     bool     `json:"seed"`    // an honest seed is connected
 	Corrupt  bool     `json:"corrupt"` // a second peer that answers with corrupt data
+	Huge     bool     `json:"huge,omitempty"` // the 4 GiB + 3 MiB + 5 torrent; only its last six pieces exist (prefilled)
 	Ops      []string `json:"ops"`
+}
+
+// The huge geometry: 1 MiB pieces, 4 GiB + 3 MiB + 5 bytes.  Positions beyond 4 GiB do
+// not fit 32 bits and neither does (piece index x piece size).  The content is the
+// same formula as everywhere (wtruthByte); only the pieces from hugeFirst on are
+// hashed for real and stored, every window lies inside them.
+var ghuge = wgeom{"ghuge", 1 << 20, 4<<30 + 3<<20 + 5}
+
+const hugeFirst = 4094
+
+var hugeInfo []byte
+var hugePieces = map[uint32][]byte{}
+
+func hugeTruth(off int64, n int) []byte {
+	b := make([]byte, n)
+	for i := range b {
+		b[i] = wtruthByte(off + int64(i))
+	}
+	return b
+}
+
+func hugeSetup() []byte {
+	if hugeInfo != nil {
+		return hugeInfo
+	}
+	var pieces []byte
+	for i := 0; i < ghuge.npieces(); i++ {
+		var h [20]byte
+		if i >= hugeFirst {
+			d := hugeTruth(int64(i)*int64(ghuge.PSize), int(ghuge.pieceLen(uint32(i))))
+			hugePieces[uint32(i)] = d
+			h = sha1.Sum(d)
+		} else {
+			h[0], h[1], h[2] = byte(i), byte(i>>8), 0x5a
+		}
+		pieces = append(pieces, h[:]...)
+	}
+	d := &rc.Dict{}
+	d.Set("length", ghuge.Length)
+	d.Set("name", "huge")
+	d.Set("piece length", int64(ghuge.PSize))
+	d.Set("pieces", pieces)
+	hugeInfo = rc.Bencode(d)
+	return hugeInfo
 }
 
 func (s readScenario) String() string {
@@ -115,12 +161,22 @@ func runRead(t *testing.T, sc readScenario) (probs []problem, outcome string) {
 		config.DefaultUseTrackers = false
 		config.DefaultUseWebseeds = false
 		g := wgeoms["gtail"]
-		w := &World{cfg: worldCfg{Geom: "gtail"}, g: g}
-		w.truth = make([]byte, g.Length)
-		for i := range w.truth {
-			w.truth[i] = wtruthByte(int64(i))
+		if sc.Huge {
+			g = ghuge
 		}
-		info := buildInfo(g, w.truth, "read", 0)
+		w := &World{cfg: worldCfg{Geom: g.Name}, g: g}
+		var info []byte
+		truthAt := func(off int64, n int) []byte { return w.truth[off : off+int64(n)] }
+		if sc.Huge {
+			info = hugeSetup()
+			truthAt = hugeTruth
+		} else {
+			w.truth = make([]byte, g.Length)
+			for i := range w.truth {
+				w.truth[i] = wtruthByte(int64(i))
+			}
+			info = buildInfo(g, w.truth, "read", 0)
+		}
 		tt, err := ReadTorrent("", bytes.NewReader(wrapInfo(info)))
 		if err != nil {
 			panic(err)
@@ -133,7 +189,14 @@ func runRead(t *testing.T, sc readScenario) (probs []problem, outcome string) {
 			panic(err)
 		}
 		w.t = tor
-		if sc.Prefill {
+		if sc.Huge {
+			for i := uint32(hugeFirst); i < uint32(g.npieces()); i++ {
+				tor.Pieces.AddData(i, 0, append([]byte{}, hugePieces[i]...), ^uint32(0))
+				if done, _, err := tor.Pieces.Finalise(i, tor.PieceHashes[i]); !done || err != nil {
+					panic(fmt.Sprintf("huge piece %d: %v %v", i, done, err))
+				}
+			}
+		} else if sc.Prefill {
 			for i := 0; i < g.npieces(); i++ {
 				w.storePiece(uint32(i))
 			}
@@ -202,6 +265,8 @@ func runRead(t *testing.T, sc readScenario) (probs []problem, outcome string) {
 									prob("C02/read-hangs-after-cancel-or-delete", "a Read blocked for an hour of virtual time after its context was cancelled / the torrent deleted  [%s]", sc)
 								} else if sc.Seed {
 									prob("C02/read-never-returns", "with an honest unchoking seed connected, a Read at position %d did not return within an hour of virtual time  [%s]", pos, sc)
+								} else if sc.Prefill && !strings.Contains(strings.Join(sc.Ops, ","), "evict") {
+									prob("C02/read-blocks-on-present-data", "every piece of the window is verified and in the store, yet a Read at position %d did not return within an hour of virtual time  [%s]", pos, sc)
 								}
 								trace = append(trace, "hang")
 								outcome = strings.Join(trace, ",")
@@ -220,7 +285,7 @@ func runRead(t *testing.T, sc readScenario) (probs []problem, outcome string) {
 						prob("C02/read-beyond-window", "at position %d of a %d-byte window Read returned %d bytes  [%s]", pos, sc.Len, n, sc)
 						return
 					}
-					if n > 0 && !bytes.Equal(buf[:n], w.truth[sc.Off+pos:sc.Off+pos+int64(n)]) {
+					if n > 0 && !bytes.Equal(buf[:n], truthAt(sc.Off+pos, n)) {
 						prob("C02/read-wrong-bytes", "the %d bytes returned at position %d differ from the true content at offset %d  [%s]", n, pos, sc.Off+pos, sc)
 						return
 					}
@@ -262,7 +327,7 @@ func runRead(t *testing.T, sc readScenario) (probs []problem, outcome string) {
 						break
 					}
 					if time.Now().After(deadline) {
-						prob("C02/no-progress", "with an honest unchoking seed connected, Read at position %d kept returning (0, nil) for an hour of virtual time (%d attempts)  [%s]", pos, attempt+1, sc)
+						prob("C02/no-progress", "with an honest unchoking seed connected or every piece already in the store, Read at position %d kept returning (0, nil) for an hour of virtual time (%d attempts)  [%s]", pos, attempt+1, sc)
 						outcome = strings.Join(trace, ",")
 						return
 					}
@@ -417,6 +482,35 @@ func TestVerifC02(t *testing.T) {
 						continue
 					}
 					judge(readScenario{Off: win[0], Len: win[1], Prefill: true, Ops: []string{a, b, c}})
+				}
+			}
+		}
+	}
+	// (a') the same arithmetic beyond 4 GiB: windows around the 4 GiB mark, across piece
+	// boundaries behind it, and at the very end of a torrent of 4 GiB + 3 MiB + 5 bytes
+	{
+		const G4 = int64(4) << 30
+		HP := int64(ghuge.PSize)
+		HL := ghuge.Length
+		hwin := [][2]int64{{G4 - 100, 200}, {G4, 40000}, {G4 - HP - 5, 2*HP + 10}, {G4 + HP - 1, 2}, {HL - 1, 1}, {G4 + 2*HP + 100, HL - (G4 + 2*HP + 100)}, {G4 - 2*HP, HL - (G4 - 2*HP)}}
+		hops := []string{"read:1", "read:100", "read:16384", "read:40000", "read:-1",
+			"seek:0:0", "seek:16383:0", "seek:1048576:0", "seek:-1:2", "seek:100:1", "seek:0:2", "seek:-50000:1"}
+		for _, win := range hwin {
+			for _, a := range hops {
+				if !mine() {
+					continue
+				}
+				if vh.Expired() {
+					res.NotExhaustive("deadline in the sweep beyond 4 GiB")
+					return
+				}
+				for _, b := range hops {
+					judge(readScenario{Off: win[0], Len: win[1], Prefill: true, Huge: true, Ops: []string{a, b}})
+					if vh.Thorough() || strings.HasPrefix(a, "seek") {
+						for _, c := range hops[:5] {
+							judge(readScenario{Off: win[0], Len: win[1], Prefill: true, Huge: true, Ops: []string{a, b, c}})
+						}
+					}
 				}
 			}
 		}
